@@ -23,7 +23,7 @@ func init() {
 		gen.CheckPanics(c.Run, c.Prog)
 		gen.CLIIndexed = nil
 		tick("panics")
-		gen.CheckErrors(c.Run, c.Prog)
+		lookupErrors(c)
 		gen.CheckLoopsPureUntilExit(c.Run, c.Prog)
 		gen.CheckRecursionFanout(c.Run, c.Prog)
 		gen.CheckLoadErrorsFatal(c.Run, c.Prog)
